@@ -6,7 +6,10 @@ cd /repo || exit 2
 if [ -n "$(git status --porcelain --untracked-files=no)" ]; then echo "repo dirty"; exit 2; fi
 git apply "$patch" || { echo "patch does not apply"; exit 2; }
 cd /verif
+cp evidence/$prop.json /tmp/evidence_backup_$prop.json 2>/dev/null
 ./check $prop --tier $tier > /tmp/mut_$prop.out 2> /tmp/mut_$prop.err
 rc=$?
+# the evidence file of a run against a seeded change must not replace the one of the unchanged tree
+cp /tmp/evidence_backup_$prop.json evidence/$prop.json 2>/dev/null
 cd /repo && git checkout -- . 
 echo "rc=$rc"; grep -c '^VIOLATION' /tmp/mut_$prop.out; grep 'violation sig' /tmp/mut_$prop.err | head -3 | cut -c1-300; tail -1 /tmp/mut_$prop.err
